@@ -78,5 +78,28 @@ fn peer_lists_lead_to_the_right_dials() {
         let again = dialled(&mut a);
         if !again.is_empty() { fail("C14", &mut failing, format!("{}: handed the same list again, A dials {:?} again although those handshakes are pending", desc, again)); }
     } }
+    // ---- (C14, "including nodes behind address-filtering NATs that dial each other") the peer list A hands to others must contain, for
+    // its peer X, the address A SEES X at - the only one that reaches X through an address translator - however many addresses X
+    // advertises itself (the peer-list encoder keeps at most 7 addresses per family). Mechanism: GenericCloud::update_peer_info keeps the
+    // seen address among the first entries (obligation peers::GenericCloud::update_peer_info) + NodeInfo encode / decode.
+    for n_adv in 0..12usize { for &with_seen in [false, true].iter() {
+        let mut a = mk(aa);
+        let mut x = mk(x1);
+        a.connect(x1).unwrap();
+        pump(&mut a, aa, &mut x, x1);
+        if !a.is_connected(&x1) { fail("C14", &mut failing, "A and X do not connect".into()); return; }
+        let _ = dialled(&mut a);
+        let xid = a.peers.get(&x1).unwrap().node_id;
+        let mut adv: AddrList = smallvec![];
+        for i in 0..n_adv { adv.push(addr(2000 + i as u16)); }
+        if with_seen && n_adv > 0 { let at = n_adv - 1; adv[at] = x1; }
+        let info = NodeInfo { node_id: xid, peers: smallvec![], claims: smallvec![], peer_timeout: None, addrs: adv.clone() };
+        if a.update_peer_info(x1, Some(info)).is_err() { fail("C14", &mut failing, format!("node information of X with {} advertised addresses: update_peer_info fails", n_adv)); continue; }
+        let mut buf = MsgBuffer::new(100);
+        a.create_node_info().encode(&mut buf);
+        let listed = match NodeInfo::decode(Cursor::new(buf.message())) { Ok(i) => i, Err(e) => { fail("C14", &mut failing, format!("A's own node information does not decode: {:?}", e)); continue; } };
+        let ok = listed.peers.iter().any(|p| p.node_id == Some(xid) && p.addrs.contains(&x1));
+        if !ok { fail("C14", &mut failing, format!("X advertises {} addresses {:?} and is seen by A at {}: the peer list A sends lists X as {:?} - without the address A sees it at (a node behind an address translator is told only addresses that do not reach X)", n_adv, adv, x1, listed.peers)); }
+    } }
     assert_eq!(failing, 0);
 }
